@@ -223,6 +223,42 @@ def type_arms(F, res):
             res.add([ok("S-TYPES", key, w, "dedicated arm")])
 
 
+DROPPING = ("filter", "filter_map", "take", "skip", "take_while", "skip_while", "step_by", "take_if", "nth", "last", "find", "find_map",
+            "retain", "truncate", "clear", "drain", "split_off", "pop_first", "pop_last", "remove")
+
+
+def all_supplied(F, res):
+    """S-ALLSUPPLIED: every entry the request supplies - under `args` and under `env` - reaches the loop that looks it up among
+    the declared parameters: on the way from those fields of ResolveParams (helpers inlined) there is no filtering, truncating
+    or conditional dropping adaptor (`Option::filter`, `Iterator::filter/take/skip..`, `retain`, `clear`, ..).  Whether an entry
+    is *used* is then decided per key by S-DECLARED alone, never by counts or by what else the request contains."""
+    from ..common import with_helpers
+    f = with_helpers(F, "tx3_resolver::trp::parse_resolve_request")
+    n = 0
+    for b in with_closures(F, f):
+        du = mir.DefUse(b)
+        for bi, t in mir.calls(b):
+            c = t.get("callee") or ""
+            last = c.split("::")[-1]
+            if last not in DROPPING or not t["args"] or not (c.startswith("std::") or c.startswith("core::") or c.startswith("alloc::")):
+                continue
+            flds = set()
+            for o in mir.provenance(b, du, t["args"][0], transparent_extra=("std::iter::IntoIterator::into_iter", "std::iter::Iterator::flatten", "std::iter::Iterator::chain",
+                                                                            "std::iter::Iterator::map", "std::option::Option::<T>::as_ref", "std::option::Option::<T>::as_mut",
+                                                                            "std::ops::Deref::deref", "std::ops::DerefMut::deref_mut")):
+                if o.kind == "arg":
+                    for pr in o.proj:
+                        if pr in (".args", ".env"):
+                            flds.add(pr[1:])
+            if not flds:
+                continue
+            n += 1
+            key = "tx3_resolver::trp::parse_resolve_request|request.%s passes through %s" % ("/".join(sorted(flds)), last)
+            res.add([finding("S-ALLSUPPLIED", key, where(b, t["line"]), "entries supplied under `%s` go through `%s` before they are matched against the declared parameters: a declared argument can be dropped (or an ill-formed one go unnoticed) depending on what else the request contains" % ("/".join(sorted(flds)), last))])
+    if n == 0:
+        res.add([ok("S-ALLSUPPLIED", "tx3_resolver::trp::parse_resolve_request|every supplied entry reaches the lookup", where(F.fn("tx3_resolver::trp::parse_resolve_request")), "no filtering / truncating adaptor between request.args / request.env and the loop over the supplied entries")])
+
+
 def run(ctx):
     F = ctx.F
     res = Result("C16")
@@ -241,6 +277,8 @@ def run(ctx):
     res.floor("functions in closure", res.analysed.get("functions in closure", 0), 25)
     field_use(F, res)
     declared_only(F, res)
+    res.rule("S-ALLSUPPLIED", "every entry supplied under args / env reaches the per-key lookup (no filtering or truncation on the way)")
+    all_supplied(F, res)
     type_arms(F, res)
     nofloat(F, res, cg, ROOTS + env_roots)
     encodings(F, res, cg)
